@@ -250,6 +250,7 @@ func (d *Decoder) readTypedList(tag byte) (interface{}, error) {
 		}
 	}
 
+	holder.complete = true
 	return holder, nil
 }
 
@@ -309,5 +310,6 @@ func (d *Decoder) readUntypedList(tag byte) (interface{}, error) {
 		}
 	}
 
+	holder.complete = true
 	return holder, nil
 }
